@@ -10,8 +10,15 @@ namespace etl {
 
 /// Forms the logical disjunction of the type traits B..., effectively
 /// performing a logical OR on the sequence of traits.
-template <typename... B>
-struct disjunction : bool_constant<(B::value or ...)> { };
+template <typename...>
+struct disjunction : false_type { };
+
+template <typename B1>
+struct disjunction<B1> : B1 { };
+
+// Short-circuits: Bn::value is not instantiated once a preceding B::value is true.
+template <typename B1, typename... Bn>
+struct disjunction<B1, Bn...> : conditional_t<static_cast<bool>(B1::value), B1, disjunction<Bn...>> { };
 
 template <typename... B>
 inline constexpr bool disjunction_v = disjunction<B...>::value;
